@@ -43,11 +43,11 @@ type ctxT struct {
 
 // functions that always run in a fixed role/phase whoever calls them
 var fixedCtx = map[string]ctxT{
-	"NewClient":             {role: "Client/ctor", phase: "PCtor"},
-	"Client.Connect":        {role: "Client/connect", phase: "PPre"},
-	"Driver.NewLLRPDevice":  {role: "LLRPDevice/ctor", phase: "PCtor"},
-	"Instance":              {role: "Driver/init", phase: "PCtor"},
-	"Driver.Initialize":     {role: "Driver/init", phase: "PCtor"},
+	"NewClient":            {role: "Client/ctor", phase: "PCtor"},
+	"Client.Connect":       {role: "Client/connect", phase: "PPre"},
+	"Driver.NewLLRPDevice": {role: "LLRPDevice/ctor", phase: "PCtor"},
+	"Instance":             {role: "Driver/init", phase: "PCtor"},
+	"Driver.Initialize":    {role: "Driver/init", phase: "PCtor"},
 }
 
 // functions executed once per object: a `go` statement directly in them (not in a loop)
@@ -101,6 +101,7 @@ type accessT struct {
 	File  string   `json:"file"`
 	Line  int      `json:"line"`
 	Func  string   `json:"func"`
+	Alt   int      `json:"alt_line"` // for a composite-literal key: the line where the literal starts
 }
 
 type roleT struct {
@@ -288,6 +289,10 @@ func (w *walker) site(pos token.Pos) (string, string, int) {
 }
 
 func (w *walker) emit(sn, field, kind string, pos token.Pos) {
+	w.emitAlt(sn, field, kind, pos, token.NoPos)
+}
+
+func (w *walker) emitAlt(sn, field, kind string, pos, alt token.Pos) {
 	role := w.role
 	if homeOf(role) != sn {
 		role = sn + "/foreign*"
@@ -298,6 +303,9 @@ func (w *walker) emit(sn, field, kind string, pos token.Pos) {
 	a := accessT{Loc: sn + "." + field, Kind: kind, Role: role, Phase: w.effPhase(), Site: site, File: file, Line: line, Func: w.fname}
 	if locks != "" {
 		a.Locks = strings.Split(locks, ",")
+	}
+	if alt != token.NoPos {
+		a.Alt = w.an.fset.Position(alt).Line
 	}
 	k := fmt.Sprintf("%s|%s|%s|%s|%s|%s", a.Loc, a.Kind, a.Role, a.Phase, locks, a.Site)
 	if w.an.accSeen[k] {
@@ -1127,7 +1135,7 @@ func (w *walker) expr(e ast.Expr) {
 			if kv, ok := el.(*ast.KeyValueExpr); ok {
 				if id, ok := kv.Key.(*ast.Ident); ok && w.an.structs[sn] != nil {
 					if w.an.isTrackedField(sn, id.Name) {
-						w.emit(sn, id.Name, "KWrite", id.Pos())
+						w.emitAlt(sn, id.Name, "KWrite", id.Pos(), x.Pos())
 					}
 				} else {
 					w.expr(kv.Key)
